@@ -96,18 +96,14 @@ Failing == IF ev.name = "Init" \/ ev.halt
            ELSE {c \in DOMAIN Clauses : ~Clauses[c]}
 
 (* Discriminator printed with a failure: f4 = every failing fee clause is
-   exactly the F4 pattern (the _ModF4 variants hold); f21 / f20 = the failing
-   schedule / queue clauses are exactly the F21 / F20 pattern; spec = the
+   exactly the F4 pattern (the _ModF4 variants hold); f21 = the failing
+   schedule clause is exactly the F21 pattern (known finding F23); spec = the
    specification's own reason for the step. *)
 IsF4 == /\ Failing \cap {"C07_Charge", "C07_RequestEscrow"} # {}
         /\ C07_Charge_ModF4(pre, ev, st) /\ C07_RequestEscrow_ModF4(st, gh)
-SchedFails == "C08_Schedule" \in Failing
-IsF21 == SchedFails /\ ~C08_Schedule_ModF20(pre, ev, st, gpre) /\ C08_Schedule_ModF(pre, ev, st, gpre)
-IsF20 == \/ SchedFails /\ ~C08_Schedule_ModF21(pre, ev, st, gpre) /\ C08_Schedule_ModF(pre, ev, st, gpre)
-         \/ /\ Failing \cap {"C13_QueueSound", "C13_OnceOnTime"} # {}
-            /\ C13_QueueSound_ModF20(st, gh) /\ C13_OnceOnTime_ModF20(pre, ev, st, gh)
+IsF21 == "C08_Schedule" \in Failing /\ C08_Schedule_ModF21(pre, ev, st, gpre)
 (* a record, so that known-finding entries can match on "why.f4" etc. *)
-WhyOf == [f4 |-> IsF4, f20 |-> IsF20, f21 |-> IsF21, spec |-> Apply(pre, ev).why]
+WhyOf == [f4 |-> IsF4, f21 |-> IsF21, spec |-> Apply(pre, ev).why]
 
 (* Evaluated by TLC in every state; always TRUE, reports as a side effect *)
 Monitor == Failing = {} \/ PrintT(<<"CLAUSE-FAIL", l - 1, Failing, WhyOf>>)
@@ -117,7 +113,7 @@ ExNames == {"respond_ok", "respond_wrong_provider", "respond_not_active", "expir
             "charge", "discount", "withdraw_ok", "bind_ok", "enable_ok", "disable_ok", "refund_ok",
             "update_binding_ok", "pause_ok", "start_ok", "kill_ok", "update_ok", "unauthorized",
             "callback", "callback_err", "callback_ok", "funds_pause", "batch_repeat", "oneshot_removed",
-            "skip", "modcall_ok", "call_ok", "reject", "two_due", "tax", "total_reached"}
+            "skip", "modcall_ok", "call_ok", "reject", "two_due", "tax", "total_reached", "norate_pause"}
 Exercised ==
   IF ev.name = "Init" THEN {}
   ELSE
@@ -152,6 +148,9 @@ Exercised ==
        [] c = "callback_ok" -> \E i \in DOMAIN ev.cbs : ~ev.cbs[i].err
        [] c = "funds_pause" -> ev.name = "EndBlock" /\ \E id \in DOMAIN pre.ctx \cap DOMAIN st.ctx :
                                  pre.ctx[id].state = "running" /\ st.ctx[id].state = "paused"
+       [] c = "norate_pause" -> ev.name = "EndBlock" /\ \E id \in DOMAIN pre.ctx \cap DOMAIN st.ctx :
+                                  pre.ctx[id].state = "running" /\ st.ctx[id].state = "paused"
+                                  /\ RateError(pre, pre.ctx[id])
        [] c = "batch_repeat" -> ev.name = "EndBlock" /\ \E id \in DOMAIN pre.ctx :
                                   Issued(pre, st, id) /\ pre.ctx[id].batch >= 1
                                   /\ ~Get(gpre.intr, id, FALSE) /\ ~Get(gpre.modified, id, FALSE)
